@@ -86,6 +86,20 @@ def extract (σ : Store) (φ : Tree → Option (Tree × Tree)) (y x : Nat) (path
     | some (t', r) => ((σ.set x t').set y r, true)
   else (σ, false)
 
+/-- second half of `x[path] append= …` given the OLD value `tl` of the slot and the value `tv` of the
+right-hand side: the slot becomes `tl ++ [tv]`; if `tl` is not a list the operator raises and the slot
+is left null (documented); if the slot can no longer be addressed the statement raises -/
+def appendFinish (σ : Store) (x : Nat) (path : List Int) (tl tv : Tree) : Store × Bool :=
+  match tl with
+  | .list ts =>
+    match setPath (get σ x) path (.list (ts ++ [tv])) with
+    | some t' => (σ.set x t', true)
+    | none => (σ, false)
+  | _ =>
+    match setPath (get σ x) path .null with
+    | some t' => (σ.set x t', false)
+    | none => (σ, false)
+
 /-- one statement; the flag is `false` when the statement raises.  A raising statement leaves the store
 unchanged, with the one documented exception: an operator-assignment whose operator raises leaves the
 addressed slot null (README: the left-hand side is null while the operator runs). -/
@@ -101,14 +115,7 @@ def step (σ : Store) : Stmt → Store × Bool
     if declared σ x then
       match getPath (get σ x) path with
       | none => (σ, false)
-      | some (.list ts) =>
-        match setPath (get σ x) path (.list (ts ++ [evalRhs σ r])) with
-        | some t' => (σ.set x t', true)
-        | none => (σ, false)
-      | some _ =>
-        match setPath (get σ x) path .null with
-        | some t' => (σ.set x t', false)
-        | none => (σ, false)
+      | some tl => appendFinish σ x path tl (evalRhs σ r)
     else (σ, false)
   | .pop y x path => extract σ popφ y x path
   | .remove y x path i => extract σ (removeφ i) y x path
@@ -137,6 +144,16 @@ def step (σ : Store) : Stmt → Store × Bool
       match get σ x with
       | .list ts => (σ.set y (.list (ts ++ [evalAtom σ a])), true)
       | _ => (σ, false)
+    else (σ, false)
+  | .appendPop x path y ypath =>
+    if declared σ x ∧ declared σ y then
+      -- the old value of the slot is read BEFORE the right-hand side pops
+      match getPath (get σ x) path with
+      | none => (σ, false)
+      | some tl =>
+        match modPath popφ (get σ y) ypath with
+        | none => (σ, false)
+        | some (ty, r) => appendFinish (σ.set y ty) x path tl r
     else (σ, false)
 
 def run (σ : Store) : List Stmt → Store
